@@ -139,7 +139,14 @@ pub fn judge(rep: &mut Report, c: &Case) {
     let Ok(w) = parse_word(&c.word) else { rep.obs("word_rejected", 1); return };
     if w.syllables.is_empty() { return }
     let rules = match compile1(&c.rule) { Ok(x) => x, Err(Applied::Abort(s)) => { rep.abort(s, || c.json()); return } Err(_) => { rep.obs("rule_rejected", 1); return } };
-    let got = match apply(&rules, &w) { Applied::Ok(g) => g, Applied::Err(_) => { rep.obs("returned_err", 1); return } Applied::Abort(s) => { rep.abort(s, || c.json()); return } };
+    let got = match apply(&rules, &w) { Applied::Ok(g) => g, Applied::Abort(s) => { rep.abort(s, || c.json()); return }
+        Applied::Err(e) => {
+            rep.obs("returned_err", 1);
+            // the variable-identity rules and the context-variable rules are valid by construction (every variable is bound before it is
+            // used, outputs are bare variables): an error at application time is a failure to reproduce what was captured
+            if c.family.starts_with("var-identity") || c.family.starts_with("var-context") { let fam = c.family.clone(); rep.violation(format!("{fam}:fails-when-applied"), || json!({"case": c.json(), "observed": e})); }
+            return
+        } };
     rep.obs("returned_ok", 1);
     let fam = c.family.as_str();
     if fam.starts_with("var-identity") || fam.starts_with("alpha-identity") {
